@@ -172,6 +172,30 @@ func runR13_1(c *Ctx, r *R) {
 // (switch statements lower to chains of `x == K` BinOps).
 func typeSwitchLabels(f *ssa.Function, isTag func(v ssa.Value) bool) map[int64]bool {
 	out := map[int64]bool{}
+	typeSwitchLabelsInto(f, isTag, out, 0, map[*ssa.Function]bool{})
+	return out
+}
+
+func typeSwitchLabelsInto(f *ssa.Function, isTag func(v ssa.Value) bool, out map[int64]bool, depth int, seen map[*ssa.Function]bool) {
+	if seen[f] {
+		return
+	}
+	seen[f] = true
+	// the switch may live in an unexported helper of the same package that is handed the tag
+	if depth < 3 {
+		for _, call := range callsIn(f, false) {
+			callee := call.Common().StaticCallee()
+			if callee == nil || callee.Blocks == nil || callee.Pkg != f.Pkg || token.IsExported(callee.Name()) {
+				continue
+			}
+			for _, a := range call.Common().Args {
+				if isTag(a) {
+					typeSwitchLabelsInto(callee, isTag, out, depth+1, seen)
+					break
+				}
+			}
+		}
+	}
 	allInstrs(f, func(i ssa.Instruction) {
 		b, ok := i.(*ssa.BinOp)
 		if !ok || b.Op != token.EQL {
@@ -193,7 +217,6 @@ func typeSwitchLabels(f *ssa.Function, isTag func(v ssa.Value) bool) map[int64]b
 			}
 		}
 	})
-	return out
 }
 
 func declaredWireTypes(c *Ctx) map[int64]string {
